@@ -158,14 +158,26 @@ pub mod reqwest {
         { unimplemented!() }
     }
     pub uninterp spec fn is_nonce_spec(s: Seq<char>) -> bool;
-    pub struct StatusCode { pub success: Ghost<bool> }
+    pub struct StatusCode { pub success: Ghost<bool>, pub code: Ghost<int> }
     impl StatusCode {
+        // http::StatusCode: a three-digit code; the classes are its hundreds
+        pub open spec fn wf(&self) -> bool { 100 <= self.code@ < 1000 && (self.success@ <==> 200 <= self.code@ < 300) }
         #[verifier::external_body]
         pub fn is_success(&self) -> (r: bool) ensures r == self.success@ { unimplemented!() }
         #[verifier::external_body]
-        pub fn as_u16(&self) -> u16 { unimplemented!() }
+        pub fn is_informational(&self) -> (r: bool) ensures r == (100 <= self.code@ < 200) { unimplemented!() }
+        #[verifier::external_body]
+        pub fn is_redirection(&self) -> (r: bool) ensures r == (300 <= self.code@ < 400) { unimplemented!() }
+        #[verifier::external_body]
+        pub fn is_client_error(&self) -> (r: bool) ensures r == (400 <= self.code@ < 500) { unimplemented!() }
+        #[verifier::external_body]
+        pub fn is_server_error(&self) -> (r: bool) ensures r == (500 <= self.code@ < 600) { unimplemented!() }
+        #[verifier::external_body]
+        pub fn as_u16(&self) -> (r: u16) ensures r as int == self.code@ { unimplemented!() }
         #[verifier::external_body]
         pub fn as_str(&self) -> &str { unimplemented!() }
+        #[verifier::external_body]
+        pub fn canonical_reason(&self) -> Option<&'static str> { unimplemented!() }
     }
     pub struct Response { pub hdrs: header::HeaderMap, pub success: Ghost<bool>, pub body: Ghost<Seq<char>> }
     impl Response {
@@ -179,7 +191,7 @@ pub mod reqwest {
         #[verifier::external_body]
         pub fn headers(&self) -> (r: &header::HeaderMap) ensures *r == self.hdrs { unimplemented!() }
         #[verifier::external_body]
-        pub fn status(&self) -> (r: StatusCode) ensures r.success == self.success { unimplemented!() }
+        pub fn status(&self) -> (r: StatusCode) ensures r.success == self.success, r.wf() { unimplemented!() }
         #[verifier::external_body]
         pub fn text(self) -> (r: Result<String, Error>) ensures r matches Ok(s) ==> s@ == self.body@ { unimplemented!() }
     }
